@@ -12,7 +12,10 @@ RULE = ("structures: (a) PLANTED pairs — for element pairs of the radii table 
         "through a face, an edge and a corner image, on orthorhombic / triclinic(±tilt) / arbitrarily oriented cells whose "
         "perpendicular widths are between 1.02x and 3x the largest cutoff in use, and without a cell; (b) random clusters "
         "of 2–12 atoms grown at 0.5–1.6x the cutoff from earlier atoms, wrapped into the cell; (c) dyadic fractional "
-        "coordinates (k/64) in tight cells; (d) 0/1-atom structures and unknown elements (tie only). (e) strongly skewed in-domain cells "
+        "coordinates (k/64) in tight cells; (d) 0/1-atom structures and unknown elements (tie only). every structure is also produced through the library's own operations "
+        "(structure[perm], structure[unsorted subset], copy(), to_ase/from_ase_atoms, import from an ASE object, translate()+wrap, "
+        "Atoms(elements=...), replicate((1,1,1)), two halves joined with extend(), accessor reads) with ground truth from the "
+        "harness's own construction; (e) strongly skewed in-domain cells "
         "(tilt 1–3 edges); (f) scan_min tie: the minimum over the 27 scanned images, model vs uc_neighbor_offsets+cdist of the "
         "real code, on structure pairs and on small narrow / mildly tilted / strongly skewed cells. Every case is also "
         "shifted by a random vector + wrapped back, and permuted, on the real code. Non-trivial = distinct unambiguous structure with "
@@ -53,25 +56,121 @@ def fl(v):
     return float(core.unq(v))
 
 
-def run_real(elems, pos, cell):
-    """detect_bonds on the real code -> {"pairs": sorted list} | {"err": ...}"""
+def make_atoms(elems, pos, cell):
+    """the structure built with the explicit-types constructor (no mass lookup: "D" has a radius but no mass)"""
+    from mofun import Atoms
+    if not elems:
+        return Atoms(cell=None if cell is None else np.array(cell, dtype=float))
+    types = []
+    for e in elems:
+        if e not in types:
+            types.append(e)
+    return Atoms(atom_types=[types.index(e) for e in elems], atom_type_elements=types,
+                 atom_type_masses=[1.0] * len(types), positions=np.array(pos, dtype=float).reshape(-1, 3),
+                 cell=None if cell is None else np.array(cell, dtype=float))
+
+
+def bonds_of(make):
+    """detect_bonds on the structure returned by `make()` -> {"pairs": sorted list} | {"err": ...}"""
     def f():
-        from mofun import Atoms
         from mofun.detect_bonds import detect_bonds
-        if not elems:
-            a = Atoms(cell=None if cell is None else np.array(cell, dtype=float))
-        else:
-            types = []
-            for e in elems:
-                if e not in types:
-                    types.append(e)
-            a = Atoms(atom_types=[types.index(e) for e in elems], atom_type_elements=types,
-                      atom_type_masses=[1.0] * len(types), positions=np.array(pos, dtype=float).reshape(-1, 3),
-                      cell=None if cell is None else np.array(cell, dtype=float))
-        b = detect_bonds(a)
+        b = detect_bonds(make())
         return sorted([int(x), int(y)] for x, y in b)
     r = core.result_of(f)
     return {"pairs": r["ok"]} if "ok" in r else r
+
+
+def run_real(elems, pos, cell):
+    """detect_bonds on the real code -> {"pairs": sorted list} | {"err": ...}"""
+    return bonds_of(lambda: make_atoms(elems, pos, cell))
+
+
+# ------------------------------------------------------------------ the same structure / its transforms, produced by
+# the LIBRARY's own public operations (ground truth always from the harness's own construction + oracle)
+
+ROUTES = ["getitem-perm", "getitem-subset", "copy", "ase-roundtrip", "ase-import", "translate-wrap",
+          "elements-ctor", "replicate-111", "extend-halves", "accessors-then-detect"]
+
+
+def _ase_ok(elems):
+    from ase.data import chemical_symbols
+    return all(e in chemical_symbols for e in elems)
+
+
+def library_routes(inp, elems, pos, cell, want, routes):
+    """[(what, observed, required)] for every library-side route whose result differs from the rule"""
+    from mofun import Atoms
+    bad = []
+    n = len(elems)
+    if n == 0:
+        return bad
+    perm = inp.get("perm") or list(range(n))
+    inv = {old: k for k, old in enumerate(perm)}
+    base = lambda: make_atoms(elems, pos, cell)
+
+    def expect(route, got, required, what):
+        if got.get("pairs") != required:
+            bad.append(("%s [route %s]" % (what, route), got, required))
+
+    for route in routes:
+        if route == "getitem-perm":
+            renamed = sorted(sorted([inv[i], inv[j]]) for i, j in want)
+            expect(route, bonds_of(lambda: base()[list(perm)]), renamed,
+                   "bonding of structure[perm] (the library's own indexing) does not follow the renaming")
+        elif route == "getitem-subset":
+            sub = list(perm[:max(1, n // 2 + 1)])              # an unsorted selection without repetition
+            w, s = oracle([elems[o] for o in sub], [pos[o] for o in sub], cell)
+            if s >= AMBIG:
+                expect(route, bonds_of(lambda: base()[sub]), w,
+                       "bonding of the sub-structure structure[indices] differs from the rule on the selected atoms")
+        elif route == "copy":
+            expect(route, bonds_of(lambda: base().copy()), want, "bonding of structure.copy() differs from the rule")
+        elif route == "ase-roundtrip" and _ase_ok(elems):
+            expect(route, bonds_of(lambda: Atoms.from_ase_atoms(base().to_ase())), want,
+                   "bonding after Atoms.from_ase_atoms(structure.to_ase()) differs from the rule")
+        elif route == "ase-import" and _ase_ok(elems):
+            def mk():
+                import ase
+                kw = {} if cell is None else {"cell": np.array(cell, dtype=float), "pbc": True}
+                return Atoms.from_ase_atoms(ase.Atoms(list(elems), positions=np.array(pos, dtype=float), **kw))
+            expect(route, bonds_of(mk), want, "bonding of a structure imported from an ASE object differs from the rule")
+        elif route == "translate-wrap" and cell is not None and inp.get("shift") is not None:
+            t = np.array([fl(v) for v in inp["shift"]])
+            P2 = wrap(np.array(pos) + t, np.array(cell))
+            w2, s2 = oracle(elems, P2.tolist(), cell)
+            if s2 >= AMBIG:
+                def mk():
+                    a = base().copy()
+                    a.translate(t)
+                    a.positions = wrap(a.positions, np.array(cell))
+                    return a
+                expect(route, bonds_of(mk), want,
+                       "bonding changed when the structure was shifted with translate() and wrapped back into the cell")
+        elif route == "elements-ctor":
+            from mofun.atomic_masses import ATOMIC_MASSES
+            if all(e in ATOMIC_MASSES for e in elems):
+                expect(route, bonds_of(lambda: Atoms(elements=list(elems), positions=np.array(pos, dtype=float),
+                                                     cell=None if cell is None else np.array(cell, dtype=float))), want,
+                       "bonding of Atoms(elements=...) differs from the rule")
+        elif route == "replicate-111" and cell is not None:
+            expect(route, bonds_of(lambda: base().replicate((1, 1, 1))), want,
+                   "bonding of structure.replicate((1,1,1)) differs from the rule")
+        elif route == "extend-halves" and n >= 2:
+            def mk():
+                h = n // 2
+                a = make_atoms(elems[:h], pos[:h], cell)
+                a.extend(make_atoms(elems[h:], pos[h:], cell))
+                return a
+            expect(route, bonds_of(mk), want, "bonding of the structure assembled from two halves with extend() differs from the rule")
+        elif route == "accessors-then-detect":
+            def mk():
+                a = base()
+                _ = (a.elements, a.symbols, len(a), a.num_atom_types, a.cell_is_orthorhombic() if cell is not None else None)
+                if list(a.elements) != list(elems):
+                    raise AssertionError("elements accessor")
+                return a
+            expect(route, bonds_of(mk), want, "bonding after reading the accessors differs from the rule")
+    return bad
 
 
 def real_mbl(e1, e2):
@@ -160,6 +259,9 @@ def check_case(inp):
         renamed = sorted(sorted([inv[i], inv[j]]) for i, j in real["pairs"])
         if r3.get("pairs") != renamed:
             bad.append(("bonding does not follow the renaming when atoms are reordered", r3, renamed))
+    # the same relations through the library's own public operations
+    routes = inp.get("routes")
+    bad.extend(library_routes(inp, elems, pos, cell, want, ROUTES if routes is None else routes))
     return bad, real, slack, nontriv
 
 
@@ -471,7 +573,13 @@ def run(ctx, oracle_only=False):
     if unplaced:
         ctx.count("planted:no-placement-found", unplaced)
     ops, impls = [], []
-    for inp in cs:
+    for k, inp in enumerate(cs):
+        # library-side routes: all of them in the quick tier; the reordering route + two rotating ones in the thorough tier
+        if ctx.tier == "quick":
+            inp["routes"] = list(ROUTES)
+        else:
+            rest = ROUTES[1:]
+            inp["routes"] = [ROUTES[0], rest[k % len(rest)], rest[(k // len(rest) + 3) % len(rest)]]
         bad, real, slack, nontriv = check_case(inp)
         ctx.case({k: inp[k] for k in ("elems", "pos", "cell")}, nontrivial=nontriv)
         ctx.count("kind:" + inp["kind"].split("/")[0] + "/" + ("cell" if inp["cell"] else "nocell"))
